@@ -364,6 +364,7 @@ func join(a, b context, node parse.Node, nodeName string) context {
 	a.attr.dynamic = a.attr.dynamic || b.attr.dynamic
 	a.element.continued = a.element.continued || b.element.continued
 	a.attr.continued = a.attr.continued || b.attr.continued
+	a.inNoscript = a.inNoscript || b.inNoscript
 	if a.enclosing != b.enclosing {
 		if a.enclosing != "" && b.enclosing != "" {
 			a.enclosing = "*"
@@ -630,6 +631,9 @@ func mangle(c context, templateName string) string {
 	if c.enclosing != "" {
 		s += "_in(" + c.enclosing + ")"
 	}
+	if c.inNoscript {
+		s += "_inNoscript"
+	}
 	if c.linkRel != "" {
 		s += "_rel(" + strings.TrimSpace(c.linkRel) + ")"
 	}
@@ -815,6 +819,7 @@ var delimEnds = [...]string{
 }
 
 var doctypeBytes = []byte("<!DOCTYPE")
+var noscriptEnd = []byte("</noscript")
 
 // escapeText escapes a text template node.
 func (e *escaper) escapeText(c context, n *parse.TextNode) context {
@@ -836,6 +841,14 @@ func (e *escaper) escapeText(c context, n *parse.TextNode) context {
 		}
 		c1, nread := contextAfterText(c, s[i:])
 		i1 := i + nread
+		if c.inNoscript && c.state != stateText && bytes.Contains(bytes.ToLower(s[i:i1]), noscriptEnd) {
+			// e.g. `<noscript><a title="</noscript><script>">`: a parser with scripting
+			// enabled ends the noscript element inside what is an attribute value without it.
+			return context{
+				state: stateError,
+				err:   errorf(ErrBadHTML, n, 0, `"</noscript" inside an attribute value, comment or special element of a noscript element`),
+			}
+		}
 		sc, err := sanitizationContextForElementContent(c.element.name)
 		if c.state == stateText || c.state == stateSpecialElementBody && err == nil && sc == sanitizationContextRCDATA {
 			end := i1
@@ -959,6 +972,7 @@ func contextAfterText(c context, s []byte) (context, int) {
 		scriptType: c.scriptType,
 		linkRel:    c.linkRel,
 		enclosing:  c.enclosing,
+		inNoscript: c.inNoscript,
 	}
 	// A "/" inside a tag separates attributes like white space does: for a browser
 	// `<link /rel="stylesheet">` and `<link x/rel="stylesheet">` have a rel attribute,
